@@ -102,6 +102,11 @@ CHECKS = {
         text="C12_store_retrieve, C12_horizon_is_nonnegative_part, C12_horizon_starts_at_t0, C12_history_upto_t0, C12_bounds_from_minmax, C12_set_without_times_starts_t0, C12_set_with_times_aligned, C12_export_aligned, C12_sim_input_at_step_end hold for every increasing datetime axis, reference on it, series and index; generated folders (steps of 15 min .. 2 days, t0 anywhere on the axis for PI, 1-3 members, gaps, Min/Max series, history) run through pre(), set/get sequences, optimize()/simulate(); io.datetimes, io.times_sec, times(), history(), bounds(), get_timeseries() per member and the re-read exported files (time stamps, forecast date, values = extract_results at times()) are compared with TimeAxis.v evaluated in Coq, the simulator's outputs are checked against the fed inputs, and the CSV, PI and NetCDF exports of the same data are compared with each other.",
         note="Trusted: Coq kernel + vm_compute; harness; pymoca, IPOPT and the simulator produce the results that the exports are compared with; variables with their own time grid (writer-side interpolation) are not generated. No axioms. Two genuine defects repaired in /repo (8fa3241 NetCDF export time axis beyond one day, bc5cbaf set_timeseries placement of non-contiguous stamps); bounds observed here also rely on 5cbe9db (C14).",
         ref="DESIGN.md §5 C12"),
+    "C20": dict(
+        technique="Coq proof (local support of the Cox-de Boor basis, hence the guarded sums of BSpline1D/2D equal the reference spline at every point; non-negativity; inverse-lookup decision; cache validity) + three-way evaluation rtc-tools CasADi function / Gallina spline in Coq / SciPy, and checks of fit, inverse and cache reload on generated tables",
+        text="C20_local_support, C20_guard_harmless (1-D), C20_guard_harmless_2d, C20_nonneg, C20_sorted_is_mono, C20_range_ordered, C20_reverse_rejects_iff_out_of_range, C20_nan_in_nan_out, C20_cache_valid_iff_newer hold for every non-decreasing knot vector, order, weight vector and evaluation point; generated knot vectors (orders 0-3, clamped/unclamped, repeated knots) are evaluated at knots, ends, mid points and outside by rtc-tools, by the exact Gallina spline and by SciPy; BSpline1D.fit is run on generated tables for every monotonicity/curvature option and judged at its own 100 test points (first differences, SciPy second derivative) and on the data; CSVLookupTableMixin tables are compared with SciPy on the fitted tck over the whole domain, with NaN inputs, reverse_call across and outside the range (increasing and decreasing tables) against reverse_decision, and edit-and-reload sequences with controlled mtimes against cache_valid.",
+        note="Trusted: Coq kernel + vm_compute; harness; SciPy as second reference; IPOPT and brentq are judged by their results; 'monotone coefficients imply monotone spline' and partition of unity are not proved. No axioms. Two genuine defects repaired in /repo (20a757e unordered range of decreasing tables, 88755ad missing curvefit_options.ini on the second pre()).",
+        ref="DESIGN.md §5 C20"),
 }
 
 PENDING_REASON = "check not built yet (work in progress; see DESIGN.md §7 build order) — not claimed until its Coq model, theorems and correspondence check run clean on the unchanged tree"
